@@ -1075,3 +1075,109 @@ func c03R21(ic *IC, x *c02ctx, r *Report) {
 		r.Pass("R03.21", "folders/exact-results-from-go-constant", "", fmt.Sprintf("%d exact results, each from a go/constant operation (or a helper returning only such operations)", n))
 	}
 }
+
+func init() {
+	ruleText["R03.23"] = "the compile-time builtins of package unsafe are named the same everywhere: in every group of alternative string literals of package interp (the list of a case clause, a chain x == \"a\" || x == \"b\") in which one member is a builtin name of package unsafe - as it stands, or once prefixed by \"unsafe.\" - every member is one declared as constants (bltnAlignof, bltnOffsetof, bltnSizeof = \"unsafe.Alignof\", ...) - a spelling that matches none (\"AlignOf\", \"unsafe.alignOf\") silently leaves the call to the run-time replacement, which is not a constant and looks at the dynamic type of its operand"
+}
+
+// c03R23: D124. The selector case compared the name with "AlignOf", the builtin case with
+// "unsafe.alignOf": unsafe.Alignof(x) was never a constant.
+func c03R23(ic *IC, r *Report) {
+	info := ic.Info
+	names := map[string]bool{}
+	declPos := map[token.Pos]bool{}
+	sc := ic.Pk.Types.Scope()
+	for _, nm := range sc.Names() {
+		c, ok := sc.Lookup(nm).(*types.Const)
+		if !ok || !strings.HasPrefix(nm, "bltn") || c.Val().Kind() != constant.String {
+			continue
+		}
+		if v := constant.StringVal(c.Val()); strings.HasPrefix(v, "unsafe.") {
+			names[v] = true
+			declPos[c.Pos()] = true
+		}
+	}
+	if len(names) < 3 {
+		r.Errorf("R03.23: only %d builtin names of package unsafe found among the bltn constants", len(names))
+		return
+	}
+	n := 0
+	var bad []string
+	checkLit := func(l *ast.BasicLit, full string) {
+		n++
+		if !names[full] {
+			bad = append(bad, l.Value+" at "+ic.pos(l.Pos()))
+		}
+	}
+	// groups of alternatives: the list of a case clause, or a chain x == "a" || x == "b"
+	group := func(lits []*ast.BasicLit) {
+		for _, prefix := range []string{"", "unsafe."} {
+			relevant := false
+			for _, l := range lits {
+				if names[prefix+strings.Trim(l.Value, "\"")] {
+					relevant = true
+				}
+			}
+			if !relevant {
+				continue
+			}
+			for _, l := range lits {
+				if v := strings.Trim(l.Value, "\""); prefix != "" || strings.HasPrefix(v, "unsafe.") {
+					checkLit(l, prefix+v)
+				}
+			}
+			return
+		}
+	}
+	var orChain func(e ast.Expr, out *[]*ast.BasicLit) bool
+	orChain = func(e ast.Expr, out *[]*ast.BasicLit) bool {
+		b, ok := unparen(e).(*ast.BinaryExpr)
+		if !ok {
+			return false
+		}
+		if b.Op == token.LOR {
+			return orChain(b.X, out) && orChain(b.Y, out)
+		}
+		if b.Op == token.EQL {
+			if l, ok := unparen(b.Y).(*ast.BasicLit); ok && l.Kind == token.STRING {
+				*out = append(*out, l)
+				return true
+			}
+		}
+		return false
+	}
+	for _, file := range ic.Pk.Syntax {
+		if strings.HasSuffix(ic.P.Fset.Position(file.Pos()).Filename, "_test.go") {
+			continue
+		}
+		ast.Inspect(file, func(q ast.Node) bool {
+			switch y := q.(type) {
+			case *ast.CaseClause:
+				var lits []*ast.BasicLit
+				for _, e := range y.List {
+					if l, ok := unparen(e).(*ast.BasicLit); ok && l.Kind == token.STRING {
+						lits = append(lits, l)
+					}
+				}
+				if len(lits) > 0 && len(lits) == len(y.List) {
+					group(lits)
+				}
+			case *ast.BinaryExpr:
+				if y.Op == token.LOR {
+					var lits []*ast.BasicLit
+					if orChain(y, &lits) && len(lits) > 1 {
+						group(lits)
+						return false
+					}
+				}
+			}
+			return true
+		})
+	}
+	_ = info
+	r.Check(len(bad) == 0, "R03.23", "package/unsafe-builtin-names-agree", "", fmt.Sprintf("%d spellings checked against %s", n, strings.Join(sortedKeys(names), ", ")),
+		"package interp spells a compile-time builtin of package unsafe in a way that matches none of the declared names ("+strings.Join(sortedKeys(names), ", ")+"): "+strings.Join(bad, "; ")+". The test never holds, so unsafe.Alignof(x) is not recognised as a builtin: `const c = unsafe.Alignof(int8(0))` is rejected (initializer is not a constant), an array length using it is undefined, and the call falls to the run-time replacement, which answers for the dynamic type of an interface operand (1 instead of 8)")
+	if n < 4 {
+		r.Errorf("R03.23: only %d spellings of unsafe builtins found outside the constant declarations", n)
+	}
+}
